@@ -66,5 +66,6 @@ PROPS = {
 }
 for _p in ("C02", "C03", "C04", "C13"):
     PROPS[_p] = dict(PROPS["C01"])
+PROPS["C02"]["streams"] = [S("crash", 250, 6000, vm=(10, 100), vm_maxlen=8000), S("segcrash", 300, 8000, vm=(6, 60), vm_maxlen=6000)]
 PROPS["C08"] = dict(PROPS["C05"])
 PROPS["C08"]["streams"] = [S("seqapi", 200, 5000, vm=(5, 100), vm_maxlen=5000), S("crash", 120, 3000, vm=(5, 50), vm_maxlen=8000)]
